@@ -108,6 +108,21 @@ func c17queries(t *rapid.T, w *World, m *mwallet) []c17query {
 			sort.Strings(out)
 			return strings.Join(out, "\n"), nil, nil
 		}},
+		{fmt.Sprintf("AddressBalance(%d)", confs), func(wm *masswallet.WalletManager) (string, *wire.MsgTx, error) {
+			// with a confirmation threshold above one the answer depends on the tip height the coins are
+			// measured against: a coin one confirmation short and spent by the next block is counted at
+			// neither boundary
+			abs, err := wm.AddressBalance(confs, addrs)
+			if err != nil {
+				return "", nil, err
+			}
+			var out []string
+			for _, ab := range abs {
+				out = append(out, fmt.Sprintf("%s total=%d spendable=%d wstaking=%d wbinding=%d", ab.Address, amt(ab.Total), amt(ab.Spendable), amt(ab.WithdrawableStaking), amt(ab.WithdrawableBinding)))
+			}
+			sort.Strings(out)
+			return strings.Join(out, "\n"), nil, nil
+		}},
 		{"GetUtxo", func(wm *masswallet.WalletManager) (string, *wire.MsgTx, error) {
 			utx, err := wm.GetUtxo(nil)
 			if err != nil {
